@@ -107,7 +107,7 @@ PROPS.update({
         "witness": ("c05", 3000),
         "level": "proof", "design_ref": "DESIGN.md section 5 C05",
         "assumptions": U1_ASSUME + ["units with iterator client loops are verified with --no-lifetime (Verus's lifetime pass over ghost code is off; exec code is borrow-checked by rustc in the real crate)"],
-        "level_text": "uncompress / uncompress_with_previous_offset are proved to succeed exactly on accepted packets and to return uncompress_spec(p) (record by record: owner and rdata names expanded, RDLENGTH rewritten, everything else including OPT verbatim) together with the position of the carried record boundary (bmap)",
+        "level_text": "uncompress / uncompress_with_previous_offset are proved to succeed exactly on accepted packets and to return uncompress_spec(p) (record by record: owner and rdata names expanded, RDLENGTH rewritten, everything else including OPT verbatim) together with the position of the carried record boundary (bmap); theorem_c05 and the lemmas of spec/pfedit.rs prove for that spec function: the output is accepted, pointer-free (pf_packet), has the identical header, is a fixed point of decompression, and record k of a section is carried to record k of the output",
         "technique": "Verus functional contract of the extracted decompressor against a recursive spec function, section loops verified through the iterator contracts",
     },
     "C13": {
